@@ -25,7 +25,7 @@ class E:
     """A small expression tree.  kind in:
     const, param, call, binop, unop, cast, ref, proj, discr, agg, phi, local, other
     """
-    __slots__ = ('kind', 'a', 'b', 'op', 'args', 'info', 'bb', 'pos')
+    __slots__ = ('kind', 'a', 'b', 'op', 'args', 'info', 'bb', 'pos', '_hn')
 
     def __init__(self, kind, a=None, b=None, op=None, args=None, info=None, bb=None):
         self.kind = kind
@@ -601,8 +601,9 @@ class Fn:
             return self._apply_proj(e, proj, depth, stack)
         outs = [self._apply_proj(e, rest, depth, stack) for e, rest in cands]
         # `(x as Some).0` where one definition of x is the literal `None`: that definition cannot be the one read
-        live = [o for o in outs if o.kind != 'never']
-        outs = live or outs[:1]
+        # (nor can a value computed from such an impossible read: `deref(&(Borrowed{..} as Owned).0)`)
+        live = [o for o in outs if not _has_never(o)]
+        outs = live or [o for o in outs if o.kind != 'never'] or outs[:1]
         if len(outs) == 1:
             return outs[0]
         return E('phi', args=outs, info={'l': l})
@@ -901,7 +902,7 @@ class Fn:
                 edges = [(s_, kn) for s_ in succs[b]]
             live = set(succs[b])
             for s_, k2 in edges:
-                if s_ not in live or (cut is not None and (b, s_) == cut):
+                if s_ not in live or (cut is not None and ((b, s_) == cut or (isinstance(cut, frozenset) and (b, s_) in cut))):
                     continue
                 stack.append((s_, frozenset(k2.items()), frozenset(dm.items()), passed or (b, s_) == must))
         self._feas_memo[key] = found
@@ -917,7 +918,31 @@ class Fn:
 
     def is_cut(self, edges, sink_bbs):
         r = self.reachable(0, cut_edges=edges)
-        return not any(s in r for s in sink_bbs)
+        if not any(s in r for s in sink_bbs):
+            return True
+        # (paths that contradict the Option / Result variant they built themselves are not paths: see _feasibly_reaches)
+        if self._variant_tracking():
+            ce = frozenset((int(a), int(b)) for a, b in edges)
+            return not any(self._feasibly_reaches(s, cut=ce) for s in sink_bbs)
+        return False
+
+
+def _has_never(e, depth=0):
+    """Does the expression read an enum literal through a variant it is not (an E('never') leaf)?  Memoised per node."""
+    if not isinstance(e, E):
+        return False
+    r = getattr(e, '_hn', None)
+    if r is not None:
+        return r
+    if e.kind == 'never':
+        r = True
+    elif e.kind == 'phi' or depth > 40:
+        r = False        # a join has other ways to its value
+    else:
+        e._hn = False   # (cycle guard)
+        r = _has_never(e.a, depth + 1) or _has_never(e.b, depth + 1) or any(_has_never(x, depth + 1) for x in e.args)
+    e._hn = r
+    return r
 
 
 def subst(e, f, memo=None):
